@@ -491,6 +491,7 @@ def check(run):
         it = mk(prog)
         if capped:
             it.RANGE_CAP = 3
+        it.STREAM_CAP = len(decisions) + 1      # an endless candidate stream (itertools.count) is walked for a prefix
         ctr = [0]
 
         def summary(f, args, kw, ctr=ctr):
